@@ -22,7 +22,10 @@
 // carrying the request part: the descent entered the literal branch and does
 // not come back), brace-part:lookup (a request part spelled "{..}" is taken
 // for a parameter reference), order:plugin-sequence (two declarations of one
-// method and URL are merged in declaration order), hostpath-clash:insert.
+// method and URL are merged in declaration order), hostpath-clash:insert,
+// order:acceptance (the loader's duplicate check depends on the order; only
+// when two declarations of one method have remedies of one type on patterns
+// that may overlap, else order:acceptance:no-overlapping-pair).
 package main
 
 import (
@@ -148,6 +151,47 @@ func duplicateEndpoint(ds []declInfo) bool {
 		for j := i + 1; j < len(ds); j++ {
 			if ds[i].valid && ds[j].valid && ds[i].d.Method == ds[j].d.Method && samePattern(ds[i].pat, ds[j].pat) {
 				return true
+			}
+		}
+	}
+	return false
+}
+
+// mayOverlap: some URL (or the spelling of one pattern looked up as a URL)
+// could match both patterns; kinds are not compared (permissive).
+func mayOverlap(p, q []mstep) bool {
+	for i := 0; ; i++ {
+		switch {
+		case i == len(p) && i == len(q):
+			return true
+		case i == len(p):
+			return q[i].kind == kWild
+		case i == len(q):
+			return p[i].kind == kWild
+		case p[i].kind == kWild || q[i].kind == kWild:
+			return true
+		case p[i].kind == kLit && q[i].kind == kLit && p[i].v != q[i].v:
+			return false
+		}
+	}
+}
+
+// sameTypeOverlap: two declarations of one method with remedies of one defined
+// type on patterns that may overlap - the only situation in which the loader's
+// duplicate check (checkForDuplicates) can refuse a configuration, hence the
+// side condition of the known finding F-C13f (acceptance depends on the order)
+func sameTypeOverlap(ds []declInfo) bool {
+	for i := range ds {
+		for j := i + 1; j < len(ds); j++ {
+			if !ds[i].valid || !ds[j].valid || ds[i].d.Method != ds[j].d.Method || !mayOverlap(ds[i].pat, ds[j].pat) {
+				continue
+			}
+			for _, a := range ds[i].d.Rem {
+				for _, b := range ds[j].d.Rem {
+					if a.Type != 0 && a.Type == b.Type {
+						return true
+					}
+				}
 			}
 		}
 	}
@@ -430,7 +474,12 @@ func monitorOrder(ref, k *Case) []c.Hit {
 	if ref.Accepted != k.Accepted {
 		kk := *k
 		kk.OtherOrder = ref.Decls
-		return []c.Hit{{Signature: sig("order:acceptance"),
+		s := "order:acceptance"
+		if dsi, _ := infos(k); !sameTypeOverlap(dsi) {
+			// not the known finding: no two declarations could be in conflict at all
+			s = "order:acceptance:no-overlapping-pair"
+		}
+		return []c.Hit{{Signature: sig(s),
 			Demanded: "the outcome does not depend on the order of the declarations",
 			Observed: fmt.Sprintf("accepted=%v in this order (%s), accepted=%v in the other (%s)", k.Accepted, k.Err, ref.Accepted, ref.Err),
 			Case:     kk}}
